@@ -21,7 +21,7 @@ RULE = ('class shapes: inheritance chains of depth 1-3 with auto_persist at some
         '(shape, values, loader mode); non-trivial when >=2 member kinds are present')
 ASSUMPTIONS = ['custom loaders are constructible without arguments (the saved state records the loader class)', 'exceptions compare by type and args']
 REQUIRED = ['roundtrips', 'kinds/plain', 'kinds/method', 'kinds/savable', 'kinds/future', 'future_states/pending', 'future_states/result',
-            'future_states/exception', 'future_states/cancelled', 'future_states/result-savable', 'loader/default', 'loader/global', 'loader/persave', 'loader/unknown', 'loader/ctxreuse',
+            'future_states/exception', 'future_states/cancelled', 'future_states/result-savable', 'manually_saved', 'hook_declared', 'loader/default', 'loader/global', 'loader/persave', 'loader/unknown', 'loader/ctxreuse',
             'mutation_probes', 'inherited_checks']
 BOUNDS = {'quick': '150 shapes x 4 loader modes', 'thorough': '3000 shapes x 4 loader modes'}
 
@@ -107,8 +107,10 @@ def rand_shape(rng, nest):
         redecl = bool(levels and levels[-1]['decl'] and rng.random() < 0.2)
         # a decorated level may instead declare its members from the ``persist()`` class hook (``cls.auto_persist(...)``)
         hook = bool(decorated and decl and rng.random() < 0.3)
-        levels.append({'decl': decl if decorated else [], 'pending': [] if decorated else decl, 'redecl': redecl and not hook, 'undeclared': undeclared,
-                       'hook': hook})
+        # ... or save and load them itself, with the save_members / load_members helpers, from overridden save / load_instance_state
+        manual = bool(decorated and decl and not hook and rng.random() < 0.2)
+        levels.append({'decl': decl if decorated else [], 'pending': [] if decorated else decl, 'redecl': redecl and not hook and not manual,
+                       'undeclared': undeclared, 'hook': hook, 'manual': manual})
         if not decorated:
             for name in decl:
                 members.pop(name)
@@ -142,7 +144,18 @@ def build_class(shape):
         decl = list(level['decl'])
         if level['redecl'] and chain:
             decl = decl + chain[-1][1][:1]  # re-declare an inherited member
-        if level.get('hook'):
+        if level.get('manual'):
+            def save_instance_state(self, out_state, save_context, _cls=cls, _decl=tuple(decl)):
+                super(_cls, self).save_instance_state(out_state, save_context)
+                self.save_members(_decl, out_state, save_context)
+
+            def load_instance_state(self, saved_state, load_context, _cls=cls, _decl=tuple(decl)):
+                super(_cls, self).load_instance_state(saved_state, load_context)
+                self.load_members(_decl, saved_state, load_context)
+
+            cls.save_instance_state = save_instance_state
+            cls.load_instance_state = load_instance_state
+        elif level.get('hook'):
             def persist(kls, _cls=cls, _decl=tuple(decl)):
                 super(_cls, kls).persist()
                 kls.auto_persist(*_decl)
@@ -307,8 +320,9 @@ def run_case(case):
     kinds = set(v[0] for v in shape['members'].values())
     # inheritance of declarations: every level's set contains the parents', never the children's
     seen = set()
-    hooked = any(level.get('hook') for level in shape['levels'])
-    obs['hook_declared'] = int(hooked)
+    hooked = any(level.get('hook') or level.get('manual') for level in shape['levels'])
+    obs['hook_declared'] = int(any(level.get('hook') for level in shape['levels']))
+    obs['manually_saved'] = int(any(level.get('manual') for level in shape['levels']))
     for c, decl in chain:
         if hooked:
             break  # declarations made from the persist() hook exist only once an instance was saved or loaded: judged below
